@@ -263,6 +263,7 @@ class FnSpec:
         self.closure_vals = {}
         self.trace_spec = None
         self.opaque_fstrings = h.get('opaque_fstrings', False)
+        self.goto_state_attr = h.get('goto_state_attr', False)
         self.assumptions = set()
         self.written_fields = set()
 
